@@ -67,6 +67,30 @@ pub fn all() -> Vec<PropSpec> {
             required_probes: &["c15.library_stream", "c15.foreign_stream", "c15.mutated_stream", "c15.stream_ends_in_error"],
         },
         PropSpec {
+            id: "C05",
+            level: "exploration",
+            quick_runs: 100_000,
+            thorough_runs: 4_000_000,
+            run: |c| worlds::c::run_c05(c),
+            rule: "one run = one handshake exchange over two links: real client <-> real server, real client <-> reference server (original digest-less or fp9 with drawn scheme/offset), or reference client <-> real server; either side may start (proactively, lazily, via an empty-slice call); each side appends 0-300 application bytes right behind its packet 2; both links are cut and interleaved by the scheduler (1-byte pieces, pieces spanning p0|p1, p1|p2, p2|trailing); packet contents come from the RNG seam; distinct = distinct schedule hash (which direction delivered + segment buckets)",
+            real: &["Handshake (client and/or server)"],
+            stub: &["RefHandshake peer (own SHA-256/HMAC)", "two links", "scheduler", "RNG seam (hook H3)", "application routing bytes after completion"],
+            assumptions: &["after Completed the driver routes further input to the application (process_bytes on a completed handshake is documented to fail)"],
+            required_probes: &["c.real_vs_real", "c.real_client_vs_original_server", "c.real_server_vs_original_client", "c.real_client_vs_fp9_ref_server", "c.real_server_vs_fp9_ref_client", "c.completion_with_trailing_in_same_call", "c.server_starts_proactively", "c.lazy_start_with_empty_slice"],
+        },
+        PropSpec {
+            id: "C11",
+            level: "exploration",
+            quick_runs: 5_824,
+            thorough_runs: 1_000_000,
+            run: |c| worlds::c::run_c11(c),
+            rule: "stratified over the RNG seam: run index i fixes role (2), own digest offset i mod 728 (steered through the four selector bytes, low and high sums), the scheme (2) and offset (728, permuted) of the reference peer's packet 1; every run checks own packet 1 digest, packet 2 signature against the peer's digest, and the exact echo of a digest-less packet 1, with an independent SHA-256/HMAC; distinct = distinct (role, own offset, peer scheme, peer offset) strata; states = distinct (own|received, role, scheme, offset) cells of the grid, 4368 = full",
+            real: &["Handshake"],
+            stub: &["RefHandshake (packet 1 generator, verifier; own SHA-256/HMAC checked against FIPS 180-4 / RFC 4231 vectors)", "RNG seam (hook H3) with selector steering"],
+            assumptions: &["the 32-byte suffix and the two role keys are taken from the public RTMPE clean-room description"],
+            required_probes: &["c11.own_offset_as_steered", "c11.digestless_echo_checked"],
+        },
+        PropSpec {
             id: "C06",
             level: "exploration",
             quick_runs: 400_000,
